@@ -32,6 +32,7 @@ EXPRS = [
     "{'a': @1, 'b': @2}.a", "{'a': @1}['a'] ~ @2", "[@1, @2][0]", "[@1, @2]|first", "[@1, @2]|last ~ ''", "(@1 ~ @2)|length", "@1|trim ~ @2", "'%s|%s'|format(@1, @2)",
     "@1|truncate(3, true, @2, 0)", "[@1, @2]|map('string')|join(',')", "[@1, @2]|list", "(@1, @2)", "{'k': @1}", "[@1]|map('upper')|list", "@1|forceescape ~ @2",
     "@1|striptags", "@1|wordcount", "@1|title ~ @2", "[@2, @1]|sort|join", "[@1, @2]|unique|join", "@1|list|join(@2)", "-@1", "@1 ** 2", "(-@1) ** 2", "@1 // 2 ~ @2", "not @1", "@1 and @2", "@1 or @2",
+    "{'items': @1}.items is number", "{'keys': @1, 'a': @2}.keys is callable", "{'a': @1}.get('a') ~ @2", "{'items': @1}['items']", "{'values': @1}.values is mapping", "(@1, @2).count is callable",
     "@1|xmlattr", "{'c': @1}|xmlattr", "@1|tojson", "[@1, @2]|tojson", "@1|urlize", "@1|float ~ @2", "@1|int + 1", "@1|abs", "[@1, @2]|sum", "[@1, @2]|max", "range(@1 if @1 is number else 1)|list",
 ]
 WRAPS = ["{{ E }}", "{% set v = E %}{{ v }}", "{% if E %}y{{ E }}{% else %}n{% endif %}", "{% for g in [E] %}{{ g }}{% endfor %}", "{{ x ~ (E) }}", "{{ (E)|string|length }}",
